@@ -5,7 +5,9 @@ import json, os, subprocess, sys, time
 ENV = dict(os.environ, GOFLAGS="-mod=mod", GOPROXY="off", GOSUMDB="off", GOTOOLCHAIN="local")
 AREA = {"m31": ["C15", "C20", "C01", "C03"], "m32": ["C15", "C01", "C07", "C10"], "m33": ["C15", "C02", "C03", "C07", "C10", "C14"],
         "m34": ["C15", "C06", "C01", "C07"], "m35": ["C15", "C04", "C05", "C20", "C08"], "m36": ["C15", "C04", "C05", "C08", "C13"],
-        "m37": ["C15", "C17", "C19"], "m38": ["C15", "C18", "C17"]}
+        "m37": ["C15", "C17", "C19"], "m38": ["C15", "C18", "C17"],
+        "n51": ["C15", "C01", "C03", "C07", "C10"], "n52": ["C15", "C04", "C05", "C08", "C20"], "n53": ["C15", "C17", "C18", "C19"],
+        "n54": ["C15", "C01", "C04", "C07", "C08", "C10", "C17"]}
 def sh(cmd, cwd=None, timeout=3600):
     p = subprocess.run(cmd, shell=True, cwd=cwd, env=ENV, capture_output=True, text=True, timeout=timeout)
     return p.returncode, p.stdout + p.stderr
